@@ -40,6 +40,12 @@ def _cli(case):
             disk = f.read()
         rc2, so2, se2 = vsgapi.run_cli(args, cwd=d)
         V = []
+        # the same case in-process: a divergence the in-process monitors already report (listed or not) is
+        # that mechanism, not a separate one; the CLI cases judge the CLI/in-process boundary only
+        inproc = fixmon.run(case, {PROP})
+        inproc_v = (inproc.get("props", {}).get(PROP) or {}).get("violations", [])
+        if inproc_v:
+            return {"props": {PROP: {"violations": inproc_v, "nontrivial": True, "cli_runs": 1}}, "stats": {}}
         if "Traceback" in se1 + se2:
             return {"props": {PROP: {"violations": [], "nontrivial": False, "skipped": "traceback (C19)"}}, "stats": {}}
         if "Error while processing" in se1:
